@@ -43,7 +43,7 @@ theorem ttl_sub_trig_partial (C : Cfg) (b : Bool) (e : End) (f : Frame) (inp : L
     | nil => cases bb <;> rfl
     | cons c r ih =>
       cases bb
-      · simp only [skipWs, isWs, ih]
+      · simp only [skipWs, isWs, ih]; rfl
       · simp only [skipWs, ih]
   unfold scanFn
   rw [hs]
